@@ -105,13 +105,29 @@ class HintExec:
                 if len(proj) == 1:
                     items[proj[0]["i"]] = val
                 else:
-                    raise Inconclusive("nested field write")
+                    items[proj[0]["i"]] = self._write_into(items[proj[0]["i"]], proj[1:], val, after_downcast=False)
                 env[(depth, local)] = ("tuple", tuple(items))
                 return
             if len(proj) == 1:
                 env[(depth, local)] = val      # payload of a transparent Option
                 return
         raise Inconclusive("unsupported write")
+
+    def _write_into(self, v, proj, val, after_downcast):
+        """the value v with `val` stored at the projection (fields of tuples / crate structs; an Option is transparent to its payload)"""
+        if not proj:
+            return val
+        e = proj[0]
+        if e["k"] == "downcast":
+            return self._write_into(v, proj[1:], val, True)
+        if e["k"] == "field":
+            if e.get("adt") == "core::option::Option" or after_downcast:
+                return self._write_into(v, proj[1:], val, False)
+            if isinstance(v, tuple) and v and v[0] == "tuple" and e["i"] < len(v[1]):
+                items = list(v[1])
+                items[e["i"]] = self._write_into(items[e["i"]], proj[1:], val, False)
+                return ("tuple", tuple(items))
+        raise Inconclusive("unsupported nested write")
 
     # -- values ------------------------------------------------------------------
     def op(self, env, o):
@@ -165,6 +181,9 @@ class HintExec:
                 return ("clo", r["def"], tuple(self.op(env, o) for o in r["ops"]))
             if r.get("adt") == self.ctx.roles.B:
                 return self.op(env, r["ops"][self.ctx.roles.B_bucket])     # a located bucket is its raw bucket (the label is K-new's business)
+            if r.get("agg") == "adt" and self.ctx.facts.adts.get(r.get("adt"), {}).get("kind") == "Struct" \
+                    and str(r.get("adt")).startswith(self.ctx.facts.crate + "::"):
+                return ("tuple", tuple(self.op(env, o) for o in r["ops"]))     # a private struct of the crate is the tuple of its fields
             return UNK
         if k == "discr":
             return ("discr", self.norm(env, self.read(env, r["place"]["local"], r["place"]["proj"])))
